@@ -7,7 +7,7 @@ from .. import shimlab as S
 
 ID = "C07"
 LEVEL = "exploration"
-RULE = ("trees {plain, with hard links and symlinks (-S), hostile file names} x group mode: no transform, or transform "
+RULE = ("trees {plain, with hard links and symlinks (-S), files without write permission bits, hostile file names} x group mode: no transform, or transform "
         "I/O mode {stdin/stdout pipe, $IN, $OUT, $IN $OUT, $IN/$OUT embedded in a larger argument, --in-place, $IN --no-copy, "
         "--in-place --no-copy} x program "
         "behaviour {copies input to output, ignores its input, exits 1, writes garbage to $IN (copy mode only), reads $IN "
@@ -26,6 +26,9 @@ TREES = {
     "links": ([{"p": "r/a/f1", "k": "file", "c": ["lit", "same content"]}, {"p": "r/a/h1", "k": "hard", "to": "r/a/f1"},
                {"p": "r/b/f2", "k": "file", "c": ["lit", "same content"]}, {"p": "r/b/s1", "k": "sym", "to": "../a/f1"},
                {"p": "r/b/dangling", "k": "sym", "to": "nowhere"}], ["-S"]),
+    # files without any write permission bit (as root the mode does not prevent writing, but a program may look at it)
+    "readonly": ([{"p": "r/a/f1", "k": "file", "c": ["lit", "same content"]}, {"p": "r/b/f2", "k": "file", "c": ["lit", "same content"]},
+                  {"p": "r/b/f3", "k": "file", "c": ["lit", "other conten"]}, {"p": "r/b/h3", "k": "hard", "to": "r/b/f3"}], []),
     "hostile": ([{"p": "r/a b/x ", "k": "file", "c": ["lit", "same content"]}, {"p": "r/a b/ x", "k": "file", "c": ["lit", "same content"]},
                  {"p": "r/$IN", "k": "file", "c": ["lit", "same content"]}, {"p": "r/q'uote\"", "k": "file", "c": ["lit", "same content"]},
                  {"p": "r/new\nline", "k": "file", "c": ["lit", "same content"]}], []),
@@ -75,7 +78,7 @@ def cases(tier, seed):
                     for fmt in ("default", "json"):
                         i += 1
                         if quick and (i % 4) and tname not in ("inplace_nocopy_noop", "in_embedded_garbage", "inplace_embedded_garbage",
-                                                                "inout_clobber", "in_clobber"):
+                                                                "inout_clobber", "in_clobber", "inplace_garbage"):
                             continue
                         out.append({"kind": "group", "tree": t, "transform": tname, "targs": targs, "cache": cache,
                                     "out": outmode, "fmt": fmt})
@@ -98,6 +101,10 @@ def evaluate(case):
     viol = []
     with C.Scratch() as sc:
         C.make_tree(sc.tree, entries)
+        if case["tree"] == "readonly":
+            for e in entries:
+                if e["k"] == "file":
+                    os.chmod(sc.path(e["p"]), 0o444)
         outfile = os.path.join(sc.root, "out.txt")
         if case["kind"] == "dry":
             report = D.make_report(sc, ["--min", "0"] + gargs, ["r"])
